@@ -35,6 +35,8 @@ def _case(draw, worlds):
     method = draw(st.sampled_from(['eigen', 'eigen', 'inverse']))
     prediv = draw(st.booleans()) if method == 'eigen' else False
     spec = draw(gens.model_spec(max_layers=4, max_dim=7, max_out=6, min_layers=1))
+    if draw(st.integers(0, 3)) == 0:
+        spec = dict(spec, weight_t=True)       # Linear weights (and hence their gradients) in transposed, non-contiguous storage
     # interval pairs: non-multiples on purpose (a step that refreshes the inverses without a factor update right before it, after
     # a factor-only step, needs (2,3) with >= 4 steps or (3,2) with >= 5)
     fus, ius = draw(st.sampled_from([(1, 1), (1, 2), (1, 3), (2, 1), (2, 2), (3, 1), (3, 3), (2, 3), (3, 2), (2, 3), (3, 2)]))
